@@ -150,6 +150,7 @@ var c05ErrClasses = []struct {
 	{regexp.MustCompile(`^services must be a mapping`), "servicesNotMapping"},
 	{regexp.MustCompile(`^services\..* must be a mapping`), "serviceNotMapping"},
 	{regexp.MustCompile(`cannot override `), "cannotOverride"},
+	{regexp.MustCompile(`^\S+: unexpected type `), "unexpectedType"}, // override: "<path>: unexpected type %T" (the special mergers, since C04's repairs)
 	{regexp.MustCompile(`no such file or directory`), "noFile"},
 	{regexp.MustCompile(`^unexpected type |invalid mount config for type`), "resolveErr"},
 }
@@ -327,8 +328,8 @@ type c05ApplyReal struct {
 	Main string          `json:"main"`
 }
 
-// c05Norm maps every way the merge step can fail — "cannot override", or a panic of one of the special mergers
-// (override.*) — to one class: *which* of several failing attributes is reported first depends on Go's map order
+// c05Norm maps every way the merge step can fail — "cannot override", "<path>: unexpected type …" (the special mergers,
+// errors since C04's repairs), or a panic in override.* — to one class: *which* of several failing attributes is reported first depends on Go's map order
 // inside mergeMappings (that is C04's concern, where the alternatives are enumerated); a panic elsewhere keeps its site.
 func c05Norm(out json.RawMessage) json.RawMessage {
 	var m struct {
@@ -339,7 +340,7 @@ func c05Norm(out json.RawMessage) json.RawMessage {
 		return out
 	}
 	switch {
-	case m.Err != nil && *m.Err == "cannotOverride", m.Panic != nil && strings.HasPrefix(*m.Panic, "override."):
+	case m.Err != nil && (*m.Err == "cannotOverride" || *m.Err == "unexpectedType"), m.Panic != nil && strings.HasPrefix(*m.Panic, "override."):
 		return json.RawMessage(`{"fail":"merge"}`)
 	case m.Err != nil && *m.Err == "loadErr", m.Panic != nil && !strings.HasPrefix(*m.Panic, "loader."):
 		// loading an extended file failed (yaml, interpolation, canonical form, path resolution): with two
